@@ -1,3 +1,6 @@
+pub mod api;
+pub mod astx;
+pub mod corpus;
 pub mod dv;
 pub mod props;
 pub mod rng;
